@@ -7,6 +7,7 @@ open AbtemVerif AbtemVerif.Proto AbtemVerif.FftCrop AbtemVerif.PropagatorModel A
    `masks <n1> <n2>`                 -> `ok <mask1 as 0/1 list> <mask2 as 0/1 list>`
    `pairs <n1> <n2>`                 -> `ok <in,out;in,out;…>` | `err value_error`
    `crop1d <n2> <ints>`              -> `ok <ints>` | `err …`
+   `cropfold1d <n2> <ints>`          -> `ok <ints>` | `err …`   (`_fft_crop_fold` along one axis, real-input path)
    `crop2d <m1> <m2> <rows ; separated>` -> `ok <rows>` | `err …`
    `kernel <kx> <ky> <x> <y>`        -> `ok <re> <im>` (float bit patterns; `fft_shift_kernel`) -/
 def showMask (l : List Bool) : String := showList (fun b => if b then "1" else "0") l
@@ -27,6 +28,13 @@ def handle : List String → String
     match parseNat? n2, parseList? parseInt? xs with
     | some n2, some xs =>
       match crop1d (0 : Int) xs n2 with
+      | .ok r => "ok " ++ showList showInt r
+      | .error e => s!"err {e}"
+    | _, _ => "bad-op"
+  | ["cropfold1d", n2, xs] =>
+    match parseNat? n2, parseList? parseInt? xs with
+    | some n2, some xs =>
+      match cropFold1d xs n2 with
       | .ok r => "ok " ++ showList showInt r
       | .error e => s!"err {e}"
     | _, _ => "bad-op"
